@@ -577,3 +577,10 @@ package trend
 //@ use smaS_scale(mulS(c, v), mulS(d, w), mu, P, k)
 //@ use smaS_scale(v, w, mu, P, k)
 //@ use ratio_scale(mu, winS(mulS(c, v), P)[k], winS(v, P)[k])
+//@ lemma wcS_pscale(h stream, l stream, c stream, h2 stream, l2 stream, c2 stream, lam real, j int)
+//@ requires[C18] h2[j] == lam * h[j] && l2[j] == lam * l[j] && c2[j] == lam * c[j]
+//@ ensures[C18] (h2[j] + l2[j] + c2[j] * 2) / 4 == lam * ((h[j] + l[j] + c[j] * 2) / 4)
+//@ use mul_lin(lam, h[j], l[j])
+//@ use mul_assoc(lam, c[j], 2)
+//@ use mul_lin(lam, h[j] + l[j], c[j] * 2)
+//@ use div_scale(lam, h[j] + l[j] + c[j] * 2, 4)
